@@ -259,7 +259,7 @@ def oracle_power(case, obs):
     true = [float(np.linalg.svd(np.array(A, dtype=np.float64), compute_uv=False)[0]) for A in mats]
     rows = obs['seq'] + [obs['ret']]
     if not all(math.isfinite(v) for r in rows for v in r):
-        return None if _degenerate(case) else f'non-finite estimate {obs["ret"]}'
+        return f'non-finite estimate {obs["ret"]} (callback sequence {obs["seq"][:4]})' + (' for a start vector in the kernel of the operator' if _degenerate(case) else '')
     for k, r in enumerate(rows):
         if len(r) != len(true):
             return f'{len(r)} estimates for {len(true)} independent problems'
@@ -412,9 +412,19 @@ def gen_conv(rng, tier):
             top = rng.choice([1.0, 2.0, 3.0])
             ratio = rng.choice([0.25, 0.5, 0.9 if batch > 1 else 0.5])   # sigma_2 / sigma_1 (0.9: slow entry next to fast ones)
             sig.append([top] + [top * ratio * rng.choice([1.0, 0.5, 0.25]) for _ in range(n - 1)])
+        # entries of one batch may differ by many orders of magnitude (the stopping rule is per entry, relative to that entry's own norm)
+        entry_exp = [rng.choice([0, 0, -13, 13]) for _b in range(batch)]
+        sig = [[v * 2.0 ** e for v in sg] for sg, e in zip(sig, entry_exp)]
         out.append({'n': n, 'batch': batch, 'sig': sig, 'scale_exp': rng.choice([-14, -10, -7, -4, 0, 4, 10]),
                     'dtype': rng.choice(['float32', 'float64']), 'perm_seed': rng.randrange(10 ** 6), 'maxit': 400,
                     'tol': rng.choice([0.0, 1e-6])})
+    # fixed: a slowly converging entry of small norm next to a fast entry of large norm, positive relative tolerance (round-2 seeded change C19-b1)
+    for dt in ('float32', 'float64'):
+        for small_first in (True, False):
+            slow = [2.0 ** -13 * v for v in (1.0, 0.9, 0.5)]
+            fast = [3.0, 0.75, 0.375]
+            out.append({'n': 3, 'batch': 2, 'sig': [slow, fast] if small_first else [fast, slow], 'scale_exp': 0, 'dtype': dt, 'perm_seed': 7,
+                        'maxit': 400, 'tol': 1e-6})
     return out
 
 
@@ -461,7 +471,7 @@ FAMILIES = [
            descr=lambda c: {'dtype': c['dtype'], 'scale_exp': c['scale_exp'], 'batch': c['batch']}, theorem='(implementation-level: convergence is not proved)'),
     Family('power_iteration', gen_power, impl_power, coq_power, PREAMBLE, compare_power, oracle_power,
            nontrivial=lambda c: c['maxit'] >= 1 and any(any(v) for v in c['v0']) and len(c['mats'][0][0]) > 1, descr=descr_power, shard=15,
-           theorem='C19_below_norm, C19_monotone, C19_scale_free'),
+           theorem='C19_below_norm, C19_monotone, C19_monotone_step, C19_never_nan, C19_scale_free'),
     # two families on the same kind of cases: the combination rule against the model (never matched by a known finding) and the
     # documented bound against the true norm (horizontal / grid layouts: open finding KF-02)
     Family('matrix_rule', gen_matrix, impl_matrix, coq_matrix, PREAMBLE, compare_matrix, None, descr=descr_matrix, shard=100,
